@@ -35,12 +35,15 @@
   Binary64: `p * (1e-12 / p)` can be one ulp below `1e-12` (two roundings); the theorem is about
   exact arithmetic, the harness accepts 4 ulp on the real `MPSConfig` and says so.
 
-  FINDING (open, `known_findings.d/config.json` D20): `dmrg_refuses_noise` is about the noise model
-  the DMRG check looks at (`config.noise_model`). With `prefer_device_noise_model=True` the noise in
-  effect is the device's default noise model; the full-strength statement over the noise *in
-  effect* is `DmrgRefusesEffectiveNoise`; `dmrg_refuses_effective_noise_partial` is what holds and
-  `dmrg_device_noise_counterexample` proves the full statement false for the current tree (device
-  SPAM/doppler/amplitude noise + DMRG is emulated); the witness is replayed on the real code.
+  D22 (`known_findings.d/config.json`, **fixed** in /repo de798eb): `DMRGBackendImpl.__init__` only
+  looks at `config.noise_model`; with `prefer_device_noise_model=True` the noise in effect is the
+  device's default noise model. `acceptDev fixed` models `run()`: `fixed = true` is the current
+  tree (`run()` refuses DMRG when the noise model in effect is not empty), `fixed = false` the tree
+  before the fix. `DmrgRefusesEffectiveNoise fixed` is the full-strength statement over the noise
+  *in effect*: `dmrg_refuses_effective_noise_fixed` proves it for the current tree,
+  `dmrg_device_noise_counterexample` refutes it for the old one (device SPAM/doppler/amplitude
+  noise + DMRG was emulated), `dmrg_refuses_effective_noise_partial` is what held there. The
+  harness resolves the variant against the real `run()` on every run and reports a regression.
 -/
 import EmuVerif.Proofs.Config
 
@@ -223,15 +226,15 @@ theorem dmrg_noise_asFound_counterexample :
 
 /-- Full-strength reading of "the DMRG solver refuses noise models with noise": whatever the
 source of the noise model in effect (`config.noise_model`, or the device's default one when
-`prefer_device_noise_model=True`), a non-empty one makes DMRG raise. **Not satisfied by the
-current tree** (`dmrg_device_noise_counterexample`); satisfied by the proposed repair
-(`dmrg_refuses_effective_noise_fixed`). -/
+`prefer_device_noise_model=True`), a non-empty one makes DMRG raise. Satisfied by the current
+tree (`fixed = true`, `dmrg_refuses_effective_noise_fixed`); **not** by the tree before the D22
+fix (`dmrg_device_noise_counterexample`). -/
 def DmrgRefusesEffectiveNoise (fixed : Bool) : Prop :=
   ∀ (it : IntType) (dim : Nat) (prefer : Bool) (cfgKinds devKinds : List NoiseKind),
     (if prefer then devKinds else cfgKinds) ≠ [] →
     ∃ e, acceptDev fixed .mps it dim prefer cfgKinds devKinds .dmrg = .raise e
 
-/-- With `run()` checking the noise model in effect (proposed repair) the statement holds in full. -/
+/-- With `run()` checking the noise model in effect (the current tree) the statement holds in full. -/
 theorem dmrg_refuses_effective_noise_fixed : DmrgRefusesEffectiveNoise true := by
   intro it dim prefer cfgKinds devKinds h
   unfold acceptDev acceptDevEff
@@ -248,7 +251,7 @@ theorem dmrg_refuses_effective_noise_fixed : DmrgRefusesEffectiveNoise true := b
         | cons k ks => rfl
       simp only [this, and_self, if_true]
 
-/-- What holds on the current tree: the noise in effect is refused when it is `config.noise_model`
+/-- What held before the D22 fix: the noise in effect is refused when it is `config.noise_model`
 (`prefer_device_noise_model=False`), or when `config.noise_model` is not empty either, or when the
 device noise yields at least one Lindblad operator. -/
 theorem dmrg_refuses_effective_noise_partial (it : IntType) (dim : Nat) (prefer : Bool)
@@ -289,7 +292,7 @@ theorem dmrg_refuses_effective_noise_partial (it : IntType) (dim : Nat) (prefer 
           rw [List.length_replicate] at this
           omega
 
-/-- The current tree does **not** satisfy the full-strength statement: a device whose default
+/-- The tree before the D22 fix does **not** satisfy the full-strength statement: a device whose default
 noise model has only non-Lindbladian noise (SPAM, doppler, amplitude …), taken with
 `prefer_device_noise_model=True` and an empty `config.noise_model`, is emulated by DMRG. -/
 theorem dmrg_device_noise_counterexample : ¬ DmrgRefusesEffectiveNoise false := by
